@@ -241,8 +241,8 @@ def _table():
             continue
 
         def factory(quick, seed, name=name, fn=fn, fam=fam):
-            # third order: the element-wise families in the quick tier, every family in the thorough tier
-            return make_harness(name, fn, Tier(quick, seed, reduced=quick) if quick else _thorough_tier(seed), third=(not quick or fam in ("U", "B")))
+            # third order along one direction: every family, both tiers
+            return make_harness(name, fn, Tier(quick, seed, reduced=quick) if quick else _thorough_tier(seed), third=True)
 
         table["cat:" + name] = factory
     return table
